@@ -210,6 +210,22 @@ def histories(pid, tier, seed):
         meta["seed"] = hseed
         yield ("gen-%s-%d" % (pid, i), lines, meta)
     if pid == "C18":
+        # caches of 2^17 / 2^18 slots with keys landing in the upper slots (identity hash), clears in between
+        for bits in (17, 18):
+            rng = random.Random(master.randrange(1 << 48))
+            lines = ["cache %d 0" % bits]
+            keys = [rng.randrange(8) + j * 65536 + rng.choice([0, 65535 - 7]) for j in range(0, 1 << (bits - 16)) for _ in range(3)] + [rng.randrange(1 << bits) for _ in range(10)]
+            for rnd in range(3):
+                for k in rng.sample(keys, len(keys)):
+                    lines.append("ins %d %d" % (k, rng.randrange(100)))
+                    if rng.random() < 0.5:
+                        lines.append("get %d" % rng.choice(keys))
+                for k in keys:
+                    lines.append("get %d" % k)
+                lines.append("clear")
+                for k in keys:
+                    lines.append("get %d" % k)
+            yield ("bigcache-%d" % bits, lines, {"cfg": lines[0], "kind": "big-cache", "classes": {"cache:bits=%d" % bits: 1}})
         yield from collision_histories("kcache", seed)
     if pid == "C17":
         yield from collision_histories("ntable", seed)
@@ -227,7 +243,39 @@ def histories(pid, tier, seed):
             lines.append("info %d" % r)
             lines.append("not %d" % r)
         yield ("shapes", lines, {"cfg": "eda", "kind": "all-shapes", "classes": {}})
+        # one tree with more than 2^16 nodes (index types narrower than usize in the arena show here); crate only: the arena
+        # model walks lists and needs minutes at this size
+        rng = random.Random(master.randrange(1 << 48))
+        def balanced(depth):
+            if depth == 0:
+                return ["t%d" % rng.randrange(-1, 2)]     # values stay within i64 under * and + (products in {-1,0,1}, sums below 2^17)
+            op = "&" if depth <= 8 else "|"            # products of -1/0/1 below, sums of at most 2^8 of them above: no i64 overflow
+            return [op] + balanced(depth - 1) + balanced(depth - 1)
+        big = ["!"] + balanced(16)                     # 2^17 nodes
+        yield ("bigtree", ["eda", "arena " + " ".join(big), "neg " + " ".join(big)], {"cfg": "eda", "kind": "big-tree", "no_model": True, "timeout": 60, "classes": {"eda:nodes>2^16": 1}})
     if pid == "C19":
+        # tables of several hundred entries: long probe runs (everything collides / identity hash), tombstones in the middle
+        # of the runs, insertions of absent keys past them, growth while probing
+        for (hk, uni) in ((1, 300), (0, 400), (2, 300), (6, 500)):
+            rng = random.Random(master.randrange(1 << 48))
+            lines = ["raw %d" % hk]
+            present = []
+            for k in range(uni // 2):
+                lines.append("ins %d %d" % (k, k % 97)); present.append(k)
+            for _ in range(uni):
+                x = rng.random()
+                if x < 0.35 and present:
+                    k = present.pop(rng.randrange(len(present))); lines.append("rem %d" % k)
+                elif x < 0.75:
+                    k = rng.randrange(uni); lines.append("ins %d %d" % (k, rng.randrange(1000)))
+                    if k not in present:
+                        present.append(k)
+                else:
+                    lines.append("get %d" % rng.randrange(uni + 5))
+            for k in range(0, uni, 7):
+                lines.append("get %d" % k)
+            lines.append("iter")
+            yield ("bigraw-%d-%d" % (hk, uni), lines, {"cfg": lines[0], "kind": "big-raw", "timeout": 30, "classes": {"raw:universe=%d" % uni: 1}})
         # every fill level including exactly full tables, under every hash kind
         for hk in range(0, 7):
             lines = ["raw %d" % hk, "get 0"]
@@ -280,7 +328,8 @@ def run_one(item, pid, wdir, profiles):
     name, lines, meta = item
     hp = H.write_hist(os.path.join(wdir, name + ".hist"), lines)
     res = {"name": name, "path": hp, "meta": meta, "oracle": [], "diff": None, "status": {}}
-    model = H.run_model(hp, timeout=120, retry=True)
+    no_model = bool(meta.get("no_model"))
+    model = {"lines": [], "status": "skipped"} if no_model else H.run_model(hp, timeout=120, retry=True)
     traces = {}
     for prof in profiles:
         impl = H.run_impl(hp, oracle=True, profile=prof, timeout=meta.get("timeout", 4), retry=True)
@@ -302,7 +351,7 @@ def run_one(item, pid, wdir, profiles):
             a_lines, m_lines = strip(a_lines), strip(m_lines)
             if len(a_lines) == len(m_lines):
                 a_lines = [m if (a != m and a.startswith("g ") and m.startswith("g ") and "none" in (a[2:], m[2:])) else a for a, m in zip(a_lines, m_lines)]
-        res["exact"] = res.get("exact", True) and (impl["lines"] == model["lines"])
+        res["exact"] = res.get("exact", True) and (no_model or impl["lines"] == model["lines"])
         dom = lines[0].split()[0]
         if dom in ("table", "ntable"):
             # Table: what C17 / C06 fix are the returned indices, which cells are occupied with which values, and the counters
@@ -332,6 +381,8 @@ def run_one(item, pid, wdir, profiles):
             # status words are a growth / tombstone policy (exact agreement on them is reported in the evidence, not required)
             obs = lambda ls: [(l.split(" | ")[0] + " len=" + l.split(" | ")[1].split()[0]) if " | " in l else l for l in ls]
             a_lines, m_lines = obs(a_lines), obs(m_lines)
+        if no_model:
+            a_lines = m_lines = []
         if a_lines != m_lines and res["diff"] is None:
             d = H.first_exact_diff(a_lines, m_lines)
             res["diff"] = (prof,) + d
